@@ -5,7 +5,7 @@ use crate::ctx::{guard, show, Case, Ctx, Feats};
 use crate::{fam, gen};
 use iref::{Iri, IriBuf, IriRef, IriRefBuf, Uri, UriBuf, UriRef, UriRefBuf};
 
-pub const RULE: &str = "cases: valid references of both families (grammar-derived, ~1/2 ASCII, ~1/2 with a scheme) and their mutants: every as_*/into_*/try_into_*/TryFrom/From/AsRef conversion between the eight types is executed and its outcome compared with the RFC model (up-casts always succeed with identical text; IRI->URI iff the URI grammar accepts the text; reference->full iff a scheme is present; failures hand the original back); plus family lock-step: on ASCII inputs the URI and the IRI family must report identical components, authority parts, segments, normalisation, ==, cmp, hash, base, suffix, relative_to, resolution and results of a random edit history. Non-trivial = every valid value on which the conversions ran; distinct by case";
+pub const RULE: &str = "cases: valid references of both families (grammar-derived, ~1/2 ASCII, ~1/2 with a scheme) and their mutants: every as_*/into_*/try_into_*/TryFrom/From/AsRef conversion between the eight types is executed and its outcome compared with the RFC model (up-casts always succeed with identical text; IRI->URI iff the URI grammar accepts the text; reference->full iff a scheme is present; failures hand the original back); plus family lock-step: on ASCII inputs the URI and the IRI family must report identical components, authority parts, segments, normalisation, ==, cmp, hash, base, suffix, relative_to, resolution and results of a random edit history. The lock-step also covers the stand-alone component types (owned path edited directly, component ==/cmp/hash), the whole cross-type ==/partial_cmp/hash matrix, iteration from the back and path-level suffix. Non-trivial = every valid value on which the conversions ran; distinct by case";
 
 pub const MANDATORY: &[&str] = &["conv:uri-valid", "conv:iri-only", "conv:has-scheme", "conv:no-scheme", "lockstep"];
 
